@@ -5,7 +5,7 @@ pid, name, det = sys.argv[1], sys.argv[2], sys.argv[3]
 sub = ""
 if "/" in pid:
     pid, sub = pid.split("/", 1)
-src = f"/tmp/wt/{pid}/SEED" + (f"/{sub}" if sub else "")
+src = f"/tmp/wt/{pid}/" + os.environ.get("SEEDDIR", "SEED") + (f"/{sub}" if sub else "")
 dst = f"/verif/seeded/{name}"
 os.makedirs(dst, exist_ok=True)
 shutil.copy(f"{src}/patch.diff", f"{dst}/patch.diff")
